@@ -294,6 +294,9 @@ def cases(tier):
     # mesh width falls below absolute and relative comparison tolerances
     fams.append((0.0, 1.0, "graded", trees.graded_chains(12 if q else 22, 0.0, 1.0, start=5)))
     fams.append((1000.0, 1001.0, "graded", trees.graded_chains(10 if q else 14, 1000.0, 1001.0, start=2)))
+    # the trivial tree (end points only) and the single-split tree
+    fams.append((0.0, 1.0, "dyadic", [([0.0, 1.0], [0, 0])]))
+    fams.append((-3.0, 6.0, "dyadic", [([-3.0, 6.0], [0, 0])]))
     for a, b, split, T in fams:
         for pts, lv in T:
             out.append({"config": {"kind": "trap", "a": a, "b": b, "split": split, "points": pts, "levels": lv}})
